@@ -14,7 +14,7 @@ try:
         a = subprocess.run(["patch", "-p1", "-i", os.path.abspath(patch)], cwd=repo, capture_output=True, text=True)
         if a.returncode != 0:
             print("APPLY FAILED", a.stdout, a.stderr); sys.exit(3)
-    p = subprocess.run([os.path.join(VERIF, "bin", "olint"), "check", "-property", props, "-repo", repo, "-verif", vdir], capture_output=True, text=True)
+    p = subprocess.run([os.environ.get("OLINT_BIN", os.path.join(VERIF, "bin", "olint")), "check", "-property", props, "-repo", repo, "-verif", vdir], capture_output=True, text=True)
     for l in (p.stdout + p.stderr).splitlines():
         if not l.startswith("KNOWN-FINDING") and not l.startswith("VIOLATION"):
             print(l[:420])
